@@ -266,7 +266,8 @@ def run_cases(prop, exe, seed, count, tier, profile, outdir):
 
 
 def coqc_shard(path):
-    rc, out = sh(["coqc", "-Q", COQ, "JL", "-o", path[:-2] + ".vo", path], timeout=1500)
+    # (case files may hold very long strings and arrays: no stack limit for the evaluation)
+    rc, out = sh(["bash", "-c", 'ulimit -s unlimited 2>/dev/null; exec coqc -Q "$0" JL -o "$1" "$2"', COQ, path[:-2] + ".vo", path], timeout=1500)
     flat = " ".join(out.split())
     m = re.search(r"= \(\[(.*?)\], \[(.*?)\], \[(.*?)\], (\d+)\)", flat)
     if rc != 0 or not m:
